@@ -89,7 +89,7 @@ func vhStored(tag string, small bool) *workflow.Plan { return vhStoredX(tag, sma
 
 func vhStoredX(tag string, small, concrete bool) *workflow.Plan {
 	cfg := shape.Cfg{MinBlocks: 1, MaxBlocks: api.Bound("blocks", 2, 2), MinSeqs: 1, MaxSeqs: api.Bound("seqs", 2, 2), MinActions: 1, MaxActions: api.Bound("actions", 2, 2),
-		PlanGroups: api.Bound("plan_groups_family", shape.GroupsNoneOrAll, shape.GroupsFamily), BlockGroups: api.Bound("block_groups_family", shape.GroupsNoneOrAll, shape.GroupsFamily),
+		PlanGroups: api.Bound("plan_groups_family", shape.GroupsNoneOrAll, shape.GroupsFamily), BlockGroups: api.Bound("block_groups_family", shape.GroupsNoneOrAll, shape.GroupsNoneOrAll),
 		CheckActions: 1, SimpleTailBlocks: true, SimpleTailSeqs: true, WithState: true, Req: kit.Req{N: 3}}
 	if small {
 		cfg = shape.Cfg{MinBlocks: 1, MaxBlocks: 1, MinSeqs: 1, MaxSeqs: 1, MinActions: 1, MaxActions: 1, PlanGroups: shape.GroupsNoneOrAll, CheckActions: 1, WithState: true, Req: kit.Req{N: 3}}
